@@ -39,6 +39,11 @@ def run(ctx):
         return ctx.finish(LEVEL)
     rng = ctx.rng
     thorough = ctx.tier == "thorough"
+    import subprocess
+    stall_proc = subprocess.Popen([exe], stdin=subprocess.PIPE, stdout=subprocess.PIPE, stderr=subprocess.PIPE)
+    stall_proc.stdin.write(b"authstall\n")
+    stall_proc.stdin.close()
+    stall_proc.stdin = None
     E1, E2 = bytes(rng.bytes(32)), bytes(rng.bytes(32))
     code = "ABCD-1234"
     cases = []   # (scenario, expectation) ; expectation: dict who -> True (must accept) / False (must reject) / None (either)
@@ -182,6 +187,21 @@ def run(ctx):
                 tls_diff += 1
             else:
                 ctx.violation("C08:ekm-equal-across-sessions", "two different QUIC/TLS sessions exported the same keying material", rep)
+    # peers that stall inside the handshake (silent listener; dialer that sends one byte and stops) while the honest ends run with the
+    # application's own 10 s budget: they must end in an error / deliver nothing (started early, collected here: it takes ~12 s)
+    stall_out = None
+    try:
+        so, se = stall_proc.communicate(timeout=60)
+        stall_out = json.loads(so.decode().strip().splitlines()[-1])
+    except Exception as ex:
+        ctx.oblige("harness:authstall", False, str(ex)[:200])
+    if stall_out is not None:
+        ctx.oblige("harness:authstall", not any(k.endswith("setup_err") for k in stall_out), json.dumps(stall_out)[:200])
+        if stall_out.get("sender_accepted_silent_listener"):
+            ctx.violation("C08:accepted:silent-listener:s", f"the honest sender reported successful authentication after {stall_out.get('sender_ms')} ms against a listener that accepted the auth stream and never answered", {"result": stall_out})
+        if stall_out.get("receiver_delivered_stalling_dialer"):
+            ctx.violation("C08:accepted:stalling-dialer:r", f"the receiver's authenticated accept handed on (after {stall_out.get('receiver_ms')} ms) a connection whose dialer sent one byte and then nothing", {"result": stall_out})
+        hist["stalling-peer"] = 2
     # the receiver's accept path (acceptAuthenticated / acceptExtraConns): strangers that reach the listener first - silent ones, and ones that
     # run the sender's side of the handshake with another join code - are never handed on; the legitimate sender is, promptly
     acc_specs = []
@@ -216,7 +236,8 @@ def run(ctx):
     })
     ctx.assumptions += ["HMAC-SHA256: no forgery without the key and no collisions (the symbolic theorems treat hmac as a free constructor; the byte-level theorems state the collision they would need)",
                         "distinct TLS sessions export distinct keying material and both ends of one session export the same (measured on real loopback QUIC each run, not proved)",
-                        "crypto/rand nonces are not modelled: the model is given the nonce the real endpoint chose"]
+                        "crypto/rand nonces are not modelled: the model is given the nonce the real endpoint chose",
+                        "time-outs: a stalling peer is run once per side with the 10 s budget of the call sites; other stall lengths are not explored"]
     return ctx.finish(LEVEL)
 
 
